@@ -152,16 +152,28 @@ def showTrace : List (Response String String String String String String × List
      | r => showResp r ++ "|E" ++ showList showErr (es.drop nBefore) ++ "|g" ++ toString b.cache.pulled)
       :: showTrace rest es.length
 
+/-- put `ok` back at the positions of the `pf` ops -/
+def weave : List String → List String → List String
+  | [], outs => outs
+  | op :: ops, outs =>
+    if op == "pf" then "ok" :: weave ops outs
+    else match outs with
+      | o :: rest => o :: weave ops rest
+      | [] => []
+
 def run (payload : String) : String :=
   match payload.splitOn ";" with
   | cfg :: rest =>
     let sync? := if cfg == "cfg:s" then some true else if cfg == "cfg:a" || cfg == "cfg:p" || cfg == "cfg:q" then some false else none
     let bsegs := rest.takeWhile (·.startsWith "b:")
     let ops := rest.dropWhile (·.startsWith "b:")
-    match sync?, bsegs.mapM parseBundle, ops.mapM parseReq with
+    -- `pf` (prefetch with the default, empty source hook) is the identity on the model's state and answers `ok`: the
+    -- history is run without these ops and `ok` is put back at their positions
+    let real := ops.filter (· != "pf")
+    match sync?, bsegs.mapM parseBundle, real.mapM parseReq with
     | some sync, some brs, some reqs =>
       match (Bundles.new sync brs).run [] reqs with
-      | .done trace => ";".intercalate (showTrace trace 0)
+      | .done trace => ";".intercalate (weave ops (showTrace trace 0))
       | .panic site => "PANIC " ++ site
     | _, _, _ => "bad-case"
   | [] => "bad-case"
